@@ -1763,7 +1763,13 @@ class Union(OR):
         self._eval_parent_ = parent
 
         yield from self.evaluate_left(sources)
-        yield from self.evaluate_right(sources)
+        # The second pass looks at the right operand alone. That the right operand is false for a binding does not make the
+        # disjunction false for it, so only its true results are results of the disjunction.
+        yield from (
+            right_value
+            for right_value in self.evaluate_right(sources)
+            if right_value.is_true
+        )
 
     def _invert_(self):
         # The second pass reports the falsity of the right operand alone, which does not falsify the disjunction,
